@@ -221,4 +221,12 @@ class ZeroLinearOperator(LinearOperator):
         self: Float[LinearOperator, "... #M #N"],
         other: Union[Float[Tensor, "... #M #N"], Float[LinearOperator, "... #M #N"], float],
     ) -> Union[Float[LinearOperator, "... M N"], Float[Tensor, "... M N"]]:
-        return other
+        if not (torch.is_tensor(other) or isinstance(other, LinearOperator)):
+            return other
+        # 0 + other is other, broadcast to the common shape (raises if the shapes are incompatible)
+        shape = torch.broadcast_shapes(self.shape, other.shape)
+        if other.shape == shape:
+            return other
+        if isinstance(other, LinearOperator) and other.shape[-2:] != shape[-2:]:
+            other = other.to_dense()
+        return other.expand(*shape)
